@@ -999,24 +999,253 @@ Proof.
   destruct cl; [left; split; [reflexivity|eexists; reflexivity]|right; split; reflexivity].
 Qed.
 
-Ltac brk := match goal with
-  | |- context [match ?x with _ => _ end] => destruct x eqn:?
-  end.
+Lemma inv_flags s s' :
+  class_labels s' = class_labels s -> rows_rev s' = rows_rev s ->
+  class_vals_rev s' = class_vals_rev s -> data_started s' = data_started s -> inv s -> inv s'.
+Proof. unfold inv. intros -> -> -> ->. tauto. Qed.
 
 Lemma ts_step_inv s raw s' : ts_step s raw = Ok s' -> inv s -> inv s'.
 Proof.
-  unfold ts_step, data_line. intros H [I1 I2].
-  repeat brk; try discriminate; inversion H; subst; clear H; try (split; assumption);
-    unfold inv; cbn [set_pn set_ts set_uv set_cl set_data add_row class_labels rows_rev class_vals_rev
-                     data_started]; try (split; assumption).
-  all: try (split; [intros _; destruct (I2 eq_refl) as [-> ->]; reflexivity|exact I2]).
-  all: try (split; [exact I1|intro; discriminate]).
-  all: try match goal with
-    | Hc : case_core _ _ _ = Ok _ |- _ => apply case_core_lab in Hc
-    end.
-  all: try (split; [|intro; congruence]).
-  all: try (intro Ht; match goal with
-    | Hc : _ \/ _ |- _ => destruct Hc as [[-> [? ?]]|[-> ?]]; try congruence
-    end).
-  all: try (cbn [List.length]; f_equal; apply I1; congruence).
+  unfold ts_step. intros H I.
+  destruct (lower (strip raw)) as [|c0 rest] eqn:El; [inversion H; subst; exact I|].
+  destruct (startswith tag_problemname (c0 :: rest)).
+  { destruct (data_started s); [discriminate|]. destruct (len _ =? 1); [discriminate|].
+    inversion H; subst. apply (inv_flags s); try reflexivity. exact I. }
+  destruct (startswith tag_timestamps (c0 :: rest)).
+  { destruct (data_started s); [discriminate|]. destruct (negb _); [discriminate|].
+    destruct (bool_token _); [|discriminate].
+    inversion H; subst. apply (inv_flags s); try reflexivity. exact I. }
+  destruct (startswith tag_univariate (c0 :: rest)).
+  { destruct (data_started s); [discriminate|]. destruct (negb _); [discriminate|].
+    destruct (bool_token _); [|discriminate].
+    inversion H; subst. apply (inv_flags s); try reflexivity. exact I. }
+  destruct (startswith tag_classlabel (c0 :: rest)).
+  { destruct (data_started s) eqn:Ed; [discriminate|]. destruct (len _ =? 1); [discriminate|].
+    destruct (bool_token _) as [b|]; [|discriminate].
+    destruct ((len _ =? 2) && b); [discriminate|]. inversion H; subst.
+    destruct I as [I1 I2]. destruct (I2 Ed) as [Hr Hc].
+    split; cbn [set_cl class_labels rows_rev class_vals_rev data_started].
+    - intros _. rewrite Hr, Hc. reflexivity.
+    - intros _. split; assumption. }
+  destruct (startswith tag_data (c0 :: rest)).
+  { destruct (negb _); [discriminate|]. destruct (_ && _); [discriminate|].
+    inversion H; subst. destruct I as [I1 I2].
+    split; cbn [set_data class_labels rows_rev class_vals_rev data_started]; [exact I1|discriminate]. }
+  destruct (data_started s) eqn:Ed; [|inversion H; subst; exact I].
+  unfold data_line in H. destruct (negb (full_metadata s)); [discriminate|].
+  destruct (timestamps s) as [[|]|]; try discriminate.
+  destruct (class_labels s) as [cl|] eqn:Ec; [|discriminate].
+  destruct (case_core cl (num_dims s) _) as [[[nd r] lab]|] eqn:Ecc; [|discriminate].
+  inversion H; subst. destruct I as [I1 I2]. apply case_core_lab in Ecc.
+  split; cbn [add_row class_labels rows_rev class_vals_rev data_started]; [|congruence].
+  intro Ht. destruct Ecc as [[-> [l ->]]|[-> ->]]; [|congruence].
+  cbn [List.length]. f_equal. apply I1. exact Ec.
+Qed.
+
+Lemma run_ts_inv : forall lines s s', run ts_step s lines = Ok s' -> inv s -> inv s'.
+Proof.
+  induction lines as [|l t IH]; intros s s' H I; [inversion H; subst; exact I|].
+  cbn [run] in H. destruct (ts_step s l) as [s1|] eqn:E; [|discriminate].
+  apply (IH s1 s' H). apply (ts_step_inv s l s1 E I).
+Qed.
+
+(* for every file the parser accepts as labelled: as many class values as instances *)
+Theorem parse_ts_labels_match_instances lines rows labs :
+  parse_ts lines = Ok (rows, Some labs) -> List.length labs = List.length rows.
+Proof.
+  unfold parse_ts. destruct lines as [|l0 lr]; [discriminate|].
+  destruct (run ts_step init_state (l0 :: lr)) as [s|] eqn:E; [|discriminate].
+  assert (I : inv s).
+  { apply (run_ts_inv _ _ _ E). split; cbn; [discriminate|intros _; split; reflexivity]. }
+  unfold ts_finish. destruct (_ && _); [discriminate|]. destruct (_ && _); [discriminate|].
+  destruct (num_dims s) as [nd|]; [|discriminate]. destruct (nd =? 0); [discriminate|].
+  destruct (class_labels s) as [[|]|] eqn:Ec; try discriminate.
+  intro H. inversion H; subst. rewrite !rev_length. symmetry. apply I. exact Ec.
+Qed.
+
+(* ------------------------------------------------------------------ .arff and .tsv *)
+
+(* a class value usable in all three formats *)
+Definition clab_ok (v : str) : Prop :=
+  lab_ok v /\ has ch_comma v = false /\ has ch_at v = false /\ has ch_tab v = false.
+Definition arff_header_ok (h : list str) : Prop :=
+  Forall (fun l => contains (L "@data") (lower l) = false /\
+                   contains (L "@attribute") (lower l) && contains (L "relational") (lower l) = false) h.
+
+Lemma contains_at_false p l : has ch_at l = false -> contains (ch_at :: p) l = false.
+Proof.
+  induction l as [|x t IH]; [reflexivity|]. intro H.
+  change (has ch_at (x :: t)) with (Ascii.eqb x ch_at || has ch_at t) in H.
+  apply orb_false_iff in H. destruct H as [Hx Ht].
+  cbn [contains]. rewrite startswith_at by exact Hx. cbn [orb]. apply IH. exact Ht.
+Qed.
+
+Lemma arff_header_run h : arff_header_ok h ->
+  run arff_step arff_init h = Ok arff_init.
+Proof.
+  induction 1 as [|l t [H1 H2] Ht IH]; [reflexivity|]. cbn [run].
+  assert (E : arff_step arff_init l = Ok arff_init).
+  { unfold arff_step. destruct (strip l); [reflexivity|]. rewrite H1, H2. reflexivity. }
+  rewrite E. exact IH.
+Qed.
+
+Lemma has_snoc c (toks : list str) v :
+  Forall (fun t => has c t = false) toks -> has c v = false ->
+  Forall (fun t => has c t = false) (toks ++ [v]).
+Proof. intros H Hv. apply Forall_app. split; [exact H|constructor; [exact Hv|constructor]]. Qed.
+
+Lemma arff_data_step rows ls toks v : row_ok toks -> clab_ok v ->
+  arff_step (mkA false true rows ls) (join ch_comma (toks ++ [v])) =
+  Ok (mkA false true (map fnorm toks :: rows) (v :: ls)).
+Proof.
+  intros [Hne HF] ((Hv1 & Hv2 & Hv3 & Hv4) & Hv5 & Hv6 & Hv7).
+  destruct (tok_ok_forall toks HF) as (Hc & _ & Hq & Hat & Hf).
+  set (raw := join ch_comma (toks ++ [v])).
+  assert (Hne2 : toks ++ [v] <> []) by (destruct toks; discriminate).
+  assert (Hb : blank raw = false).
+  { apply blank_join_last; [exact Hne2|]. rewrite last_last. apply nows_nonblank; assumption. }
+  assert (Hat2 : has ch_at (lower raw) = false).
+  { rewrite has_lower by apply eqb_lower_at. apply has_join; [reflexivity|]. apply has_snoc; assumption. }
+  assert (Hq2 : has ch_qmark raw = false).
+  { apply has_join; [reflexivity|]. apply has_snoc; assumption. }
+  unfold arff_step. destruct (strip raw) eqn:Es; [apply strip_nil in Es; congruence|].
+  change (L "@attribute") with (ch_at :: L "attribute"). change (L "@data") with (ch_at :: L "data").
+  rewrite !contains_at_false by exact Hat2. cbn [a_multi a_started orb andb a_rows_rev a_labs_rev].
+  rewrite replace_q_id by exact Hq2. unfold raw.
+  rewrite split_on_join by (try exact Hne2; apply has_snoc; assumption).
+  rewrite removelast_last, last_last, Hf. rewrite strip_nows by exact Hv2. reflexivity.
+Qed.
+
+Lemma run_arff_data : forall panel labs rows ls,
+  Forall row_ok panel -> Forall clab_ok labs -> List.length labs = List.length panel ->
+  run arff_step (mkA false true rows ls)
+      (map (fun rl => join ch_comma (fst rl ++ [snd rl])) (combine panel labs)) =
+  Ok (mkA false true (rev (map (map fnorm) panel) ++ rows) (rev labs ++ ls)).
+Proof.
+  induction panel as [|r p IH]; intros labs rows ls Hp Hl Hlen.
+  - destruct labs; [reflexivity|discriminate].
+  - destruct labs as [|v vs]; [discriminate|].
+    inversion Hp; subst. inversion Hl; subst.
+    cbn [combine map run fst snd]. rewrite arff_data_step by assumption.
+    rewrite IH by (try assumption; cbn in Hlen; lia).
+    cbn [map rev]. rewrite <- !app_assoc. reflexivity.
+Qed.
+
+Theorem arff_parse hdr panel labs :
+  arff_header_ok hdr -> Forall row_ok panel -> Forall clab_ok labs ->
+  List.length labs = List.length panel ->
+  parse_arff (arff_file hdr panel labs) = Ok (map (map fnorm) panel, labs).
+Proof.
+  intros Hh Hp Hl Hlen. unfold parse_arff, arff_file.
+  rewrite run_app, arff_header_run by exact Hh.
+  cbn [app run]. change (arff_step arff_init (L "@data")) with (Ok (mkA false true [] [])).
+  cbn iota. rewrite run_arff_data by assumption.
+  cbn [a_rows_rev a_labs_rev]. rewrite !app_nil_r, !rev_involutive. reflexivity.
+Qed.
+
+Lemma tsv_data_step n rows ls toks v :
+  row_ok toks -> Forall (fun t => has ch_tab t = false) toks -> clab_ok v ->
+  n = None \/ n = Some (len (v :: toks)) ->
+  tsv_step (n, rows, ls) (join ch_tab (v :: toks)) =
+  Ok (Some (len (v :: toks)), map fnorm toks :: rows, v :: ls).
+Proof.
+  intros [Hne HF] Htab ((Hv1 & Hv2 & Hv3 & Hv4) & Hv5 & Hv6 & Hv7) Hn.
+  destruct (tok_ok_forall toks HF) as (_ & _ & _ & _ & Hf).
+  unfold tsv_step.
+  destruct (join ch_tab (v :: toks)) as [|j0 jr] eqn:Ej.
+  { rewrite join_cons in Ej. apply app_eq_nil in Ej. destruct Ej as [Ej _]. congruence. }
+  rewrite <- Ej. rewrite split_on_join by (try discriminate; constructor; assumption).
+  assert (Hnn : match n with Some k => negb (k =? len (v :: toks)) | None => false end = false).
+  { destruct Hn as [-> | ->]; [reflexivity|]. rewrite Z.eqb_refl. reflexivity. }
+  rewrite Hnn, Hf. rewrite strip_nows by exact Hv2. reflexivity.
+Qed.
+
+Lemma run_tsv_data m : forall panel labs n rows ls,
+  Forall row_ok panel -> Forall (Forall (fun t => has ch_tab t = false)) panel ->
+  Forall clab_ok labs -> List.length labs = List.length panel ->
+  (forall r, In r panel -> List.length r = m) -> n = None \/ n = Some (Z.of_nat (S m)) ->
+  exists n', run tsv_step (n, rows, ls)
+                 (map (fun rl => join ch_tab (snd rl :: fst rl)) (combine panel labs)) =
+             Ok (n', rev (map (map fnorm) panel) ++ rows, rev labs ++ ls).
+Proof.
+  induction panel as [|r p IH]; intros labs n rows ls Hp Ht Hl Hlen Hm Hn.
+  - destruct labs; [eexists; reflexivity|discriminate].
+  - destruct labs as [|v vs]; [discriminate|].
+    inversion Hp; subst. inversion Hl; subst. inversion Ht; subst.
+    cbn [combine map run fst snd].
+    assert (Hlr : len (v :: r) = Z.of_nat (S m)).
+    { unfold len. cbn [List.length]. rewrite (Hm r (or_introl eq_refl)). reflexivity. }
+    rewrite tsv_data_step by (try assumption; rewrite Hlr; exact Hn).
+    destruct (IH vs (Some (len (v :: r))) (map fnorm r :: rows) (v :: ls)) as [n' Hn'];
+      try assumption; [cbn in Hlen; lia|intros; apply Hm; right; assumption|right; rewrite Hlr; reflexivity|].
+    exists n'. refine (eq_trans Hn' _). cbn [map rev]. rewrite <- !app_assoc. reflexivity.
+Qed.
+
+Theorem tsv_parse m panel labs :
+  Forall row_ok panel -> Forall (Forall (fun t => has ch_tab t = false)) panel ->
+  Forall clab_ok labs -> List.length labs = List.length panel ->
+  (forall r, In r panel -> List.length r = m) ->
+  parse_tsv (tsv_file panel labs) = Ok (map (map fnorm) panel, labs).
+Proof.
+  intros Hp Ht Hl Hlen Hm. unfold parse_tsv, tsv_file.
+  destruct (run_tsv_data m panel labs None [] [] Hp Ht Hl Hlen Hm (or_introl eq_refl)) as [n' ->].
+  rewrite !app_nil_r, !rev_involutive. reflexivity.
+Qed.
+
+(* the three formats agree on the value tokens; the class values agree up to the lower-casing of
+   the .ts parser *)
+Theorem three_formats_agree o hdr m panel labs :
+  opts_ok o -> o_labels o <> [] -> arff_header_ok hdr ->
+  panel <> [] -> Forall row_ok panel -> Forall (Forall (fun t => has ch_tab t = false)) panel ->
+  (forall r, In r panel -> List.length r = m) ->
+  Forall clab_ok labs -> List.length labs = List.length panel ->
+  exists ts_lines X,
+    write_ts o panel labs = Ok ts_lines /\
+    parse_arff (arff_file hdr panel labs) = Ok (X, labs) /\
+    parse_tsv (tsv_file panel labs) = Ok (X, labs) /\
+    parse_ts ts_lines = Ok (map (fun s => [s]) X, Some (map lower labs)) /\
+    X = map (map fnorm) panel.
+Proof.
+  intros Ho Hlab Hh Hne Hp Ht Hm Hl Hlen.
+  assert (Hv : vals_ok o panel labs).
+  { right. split; [exact Hlab|]. split; [exact Hlen|].
+    apply Forall_forall. intros v Hv. rewrite Forall_forall in Hl. apply (Hl v Hv). }
+  destruct (ts_roundtrip o panel labs Ho Hne Hp Hv) as (lines & Hw & Hr).
+  exists lines, (map (map fnorm) panel). split; [exact Hw|]. split; [apply arff_parse; assumption|].
+  split; [apply (tsv_parse m); assumption|]. split; [|reflexivity].
+  rewrite Hr. rewrite map_map. destruct (o_labels o); [congruence|]. reflexivity.
+Qed.
+
+(* ------------------------------------------------------------------ load_<dataset> splits *)
+
+Theorem split_none_is_train_then_test Xtr ytr Xte yte :
+  load_dataset None (Ok (Xtr, Some ytr)) (Ok (Xte, Some yte)) = Ok (Xtr ++ Xte, ytr ++ yte) /\
+  load_dataset (Some Train) (Ok (Xtr, Some ytr)) (Ok (Xte, Some yte)) = Ok (Xtr, ytr) /\
+  load_dataset (Some Test) (Ok (Xtr, Some ytr)) (Ok (Xte, Some yte)) = Ok (Xte, yte).
+Proof. repeat split. Qed.
+
+Lemma combine_fst_snd {A B} : forall (a : list A) (b : list B), List.length a = List.length b ->
+  map fst (combine a b) = a /\ map snd (combine a b) = b.
+Proof.
+  induction a as [|x t IH]; intros [|y u] H; try discriminate; [split; reflexivity|].
+  cbn in H. destruct (IH u) as [H1 H2]; [lia|]. cbn. rewrite H1, H2. split; reflexivity.
+Qed.
+
+(* for the bundled loaders: split=None is train followed by test, in both return forms, for any
+   two files the .ts parser accepts as labelled *)
+Theorem split_forms_consistent train test Xtr ytr Xte yte :
+  parse_ts train = Ok (Xtr, Some ytr) -> parse_ts test = Ok (Xte, Some yte) ->
+  exists X y, load_dataset None (parse_ts train) (parse_ts test) = Ok (X, y) /\
+    X = Xtr ++ Xte /\ y = ytr ++ yte /\
+    List.length X = (List.length Xtr + List.length Xte)%nat /\
+    firstn (List.length Xtr) X = Xtr /\ skipn (List.length Xtr) X = Xte /\
+    map fst (single_frame (X, y)) = X /\ map snd (single_frame (X, y)) = y.
+Proof.
+  intros Htr Hte. rewrite Htr, Hte. exists (Xtr ++ Xte), (ytr ++ yte).
+  split; [reflexivity|]. split; [reflexivity|]. split; [reflexivity|]. split; [apply app_length|].
+  split; [rewrite firstn_app, Nat.sub_diag, firstn_all; cbn; apply app_nil_r|].
+  split; [rewrite skipn_app, Nat.sub_diag, skipn_all; reflexivity|].
+  unfold single_frame. cbn [fst snd]. apply combine_fst_snd.
+  rewrite !app_length. rewrite (parse_ts_labels_match_instances _ _ _ Htr).
+  rewrite (parse_ts_labels_match_instances _ _ _ Hte). reflexivity.
 Qed.
